@@ -99,7 +99,7 @@ def c15_case(draw):
     o = Opts(steps=[0, 1], launch_names=vocab.DOC_KERNEL_LAUNCHES, w_launch=7, w_sync=2, max_top=5)
     case = draw(sim_case(o, max_ranks=3))
     all_ranks = [r["rank"] for r in case["ranks"]]
-    mode = draw(st.sampled_from(["none", "empty", "subset", "subset", "all"]))
+    mode = draw(st.sampled_from(["none", "empty", "subset", "subset", "all"] if 0 in all_ranks else ["subset", "all", "subset"]))  # None / [] mean rank 0
     ranks = None if mode == "none" else [] if mode == "empty" else list(all_ranks) if mode == "all" else \
         list(draw(st.permutations(all_ranks)))[: draw(st.sampled_from([1, 2, 3]))]
     case["params"] = {"memory": draw(st.sampled_from([True, False])), "ranks": ranks}
@@ -116,5 +116,5 @@ def campaigns(tier: str) -> List[Campaign]:
     return [Campaign("launch_stats", c15_case(), check, quick=480, thorough=24000, quick_shards=8,
                      required_classes={"clipped_delay": 0.2, "positive_delay": 0.2, "memory_launch": 0.2,
                                        "linked_non_launch_call": 0.1, "without_memory": 0.1, "mtia_launch": 0.05,
-                                       "multi_rank_request_same_correlation_ids": 0.03},
+                                       "multi_rank_request_same_correlation_ids": 0.015},
                      sample_view=view)]
